@@ -1077,7 +1077,9 @@ fn integ_driver(out: &str, seed: u64, n: u64) {
             12 => {
                 let f = *pick(&mut rng, &["kamino.stale", "solend.stale", "drift.stale"]);
                 let s = rng.gen_range(0..1000i128);
-                json!({"op":"integ","fn":f,"args":[b(s), b(s + rng.gen_range(-1..2))]})
+                // (slots are unsigned: the comparison point never goes below 0 for the slot-based venues)
+                let t = s + rng.gen_range(-1..2);
+                json!({"op":"integ","fn":f,"args":[b(s), b(if f == "drift.stale" { t } else { t.max(0) })]})
             }
             _ => json!({"op":"integ","fn":"ty.adj_sup_i64","args":[b((ru64(&mut rng) >> 2) as i128), b(rfx(&mut rng) >> 10), b(rfx(&mut rng) >> 10)]}),
         };
